@@ -1,6 +1,7 @@
 --------------------------------- MODULE Equiv ---------------------------------
 (* Model level of C05 / C23.  TLC enumerates  transformation x target x base variant:  every (transformation, target)      *)
-(* candidate on two corner base variants plus a seeded random subset (-seed) of the full product, keeps the APPLICABLE      *)
+(* candidate on two corner base variants plus, per transformation, a seeded random subset (-seed) of candidates x base     *)
+(* variants, keeps the APPLICABLE                                                                                          *)
 (* ones (EquivDef!Applicable: the documented / physical preconditions of neutrality), and computes for each                  *)
 (*     anets  the abstract original network(s)          tnet  the abstract transformed network (EquivDef!TNet)               *)
 (*     changed  whether the transformation changes the representation at all                                                 *)
@@ -10,7 +11,7 @@
 (* The invariants below state the design of the correspondence itself.                                                       *)
 EXTENDS EquivDef, Randomization
 CONSTANTS Prop,           \* "C05" | "C23"
-          NRandom         \* size of the random subset of (candidate x base variant)
+          NRandom         \* size of the random subset of (candidate x base variant) per transformation
 VARIABLES cfg, anets, tnet, changed
 
 Bases == [lvl : {"low", "high"}, ring : BOOLEAN, cva : BOOLEAN, tmodel : {"t", "pi"}, sn : {1, 10}, layout : {"id", "rot", "gap"},
@@ -41,7 +42,11 @@ Trs == IF Prop = "C05" THEN C05Tr ELSE C23Tr
 AllCands == UNION {Cands(tr) : tr \in Trs}
 Mk(t, b) == [prop |-> Prop] @@ t @@ b
 Corners == {Mk(t, b) : t \in AllCands, b \in {Corner1, Corner2}}
-Sampled == {Mk(p[1], p[2]) : p \in RandomSubset(NRandom, AllCands \X Bases)}
+\* NRandom (candidate, base variant) pairs PER TRANSFORMATION, so that transformations with few targets are sampled as often as
+\* those with many
+MinI(a, b) == IF a <= b THEN a ELSE b
+SampleOf(tr) == LET S == Cands(tr) \X Bases IN RandomSubset(MinI(NRandom, Cardinality(S)), S)
+Sampled == {Mk(p[1], p[2]) : p \in UNION {SampleOf(tr) : tr \in Trs}}
 Init == /\ cfg \in {c \in Corners \cup Sampled : Applicable(c)}
         /\ anets = ANetsOf(BaseNet(cfg), cfg)
         /\ tnet = TNetOf(BaseNet(cfg), cfg)
